@@ -2326,9 +2326,12 @@ theorem mkWrapper_wf {gates : List Kind} {r : Reg} {w : Op} (h : mkWrapper gates
 theorem groupTake_good {c : Dag} {P : Paths} (g : Good c P) (node : NodeId) (gates : List Kind) :
     ∃ P', Good (groupTake c node gates).1 P' ∧ (groupTake c node gates).1.regs = c.regs := by
   unfold groupTake
-  by_cases hc : (dictGet c.nodeDict "one-qubit").contains node = true
+  by_cases hc : c.groupable node = true
   · rw [if_pos hc]
-    have hmem : node ∈ dictGet c.nodeDict "one-qubit" := by simpa using hc
+    have hmem : node ∈ dictGet c.nodeDict "one-qubit" := by
+      unfold groupable at hc
+      have := (Bool.and_eq_true _ _).mp hc
+      simpa using this.1
     obtain ⟨i, rfl⟩ := g.inv.nodeDict_ops (by decide) (by decide) hmem
     obtain ⟨op, hop, _⟩ := g.inv.mem_nodeDict hmem
     rw [(opOf_eq_some g.inv.ids_nodup).mpr hop]
@@ -2382,7 +2385,7 @@ theorem groupWalk_good (r : Reg) (fuel : Nat) : ∀ {c : Dag} {P : Paths}, Good 
           | some e => exact ⟨P1, g1, hr1⟩
           | none =>
             simp only
-            by_cases hcond : (!((dictGet c1.nodeDict "one-qubit").contains edge.src) && !gates1.isEmpty) = true
+            by_cases hcond : (!(c1.groupable edge.src) && !gates1.isEmpty) = true
             · rw [if_pos hcond]
               obtain ⟨P2, g2, hr2⟩ := groupFlush_good g1 r edge.src gates1
               cases hf : groupFlush c1 r edge.src gates1 with
@@ -2424,14 +2427,11 @@ theorem groupLoop_good {c : Dag} {P : Paths} (g : Good c P) (os : List NodeId) :
             obtain ⟨P2, g2, hr2⟩ := ih g1
             exact ⟨P2, g2, hr2.trans hr1⟩
 
-/-- **`group_one_qubit_gates` keeps DagInv** whatever it returns (it may stop early with the `AssertionError` of
-    `OneQubitGateWrapper.__init__`), and never changes the register counts -/
+/-- **`group_one_qubit_gates` keeps DagInv** whatever it returns, and never changes the register counts -/
 theorem groupOneQubitGates_good {c : Dag} {P : Paths} (g : Good c P) :
     ∃ P', Good c.groupOneQubitGates.1 P' ∧ c.groupOneQubitGates.1.regs = c.regs := by
   unfold groupOneQubitGates
-  by_cases hh : dictHas c.nodeDict "Output" = true
-  · rw [if_pos hh]; exact groupLoop_good g _
-  · rw [if_neg hh]; exact ⟨P, g, rfl⟩
+  exact groupLoop_good g _
 
 
 /-! ### `unwrap_nodes` -/
